@@ -740,6 +740,38 @@ def rule_cache(ctx, rid):
     A = cyclevec.get(ctx, False, False)
     ok = False
     found = ''
+    # first reading: the returned list of slices interpreted on sample label vectors (gap-free labellings 0..K-1, as
+    # the cache precondition guarantees); the syntactic reading below serves forms outside the interpreted fragment
+    sem = None
+    if len(exits) == 1:
+        from ..orderval import OrderEval, Undecided as OUndecided, Vec
+        try:
+            for lab in ([0], [0, 0, 0], [0, 1], [0, 0, 1, 1, 1, 2], [0, 1, 1, 2, 3, 3, 3], [0, 0, 1, 2, 2]):
+                want = []
+                start = 0
+                for i_ in range(1, len(lab) + 1):
+                    if i_ == len(lab) or lab[i_] != lab[i_ - 1]:
+                        want.append((start, i_))
+                        start = i_
+                got = OrderEval({cv: Vec(lab)}).ev(exits[0].value)
+                if not isinstance(got, list) or not all(isinstance(x, slice) for x in got):
+                    raise OUndecided('not a list of slices')
+                gotp = [(x.start, x.stop) for x in got if x.step in (None, 1)]
+                if gotp != want or len(gotp) != len(got):
+                    sem = 'labels %s give slices %s, expected %s' % (lab, [(x.start, x.stop) for x in got], want)
+                    break
+            else:
+                sem = True
+        except IndexError as ie:
+            sem = 'labels %s: %s' % (lab, ie)
+        except (OUndecided, TypeError, ValueError):
+            sem = None
+    if sem is True:
+        ctx.passed(rid, fi, c, 'interpreted on 6 label vectors')
+        return
+    if sem is not None:
+        ctx.violation(rid, fi, c, sem)
+        return
     if len(exits) == 1 and exits[0].value[0] == 'comp' and len(exits[0].value[3]) == 1:
         comp = exits[0].value
         var, it, cnds = comp[3][0]
@@ -817,7 +849,8 @@ def rule_augmented_routes(ctx, rid):
     m = P.func(CSUP + 'map_cycle_to_samples_augmented')
     c = 'augmented extent of a cycle is the same with and without the slice cache'
     ae = [e for e in Evaluator(P).run(a) if e.kind == 'return']
-    me = [e for e in Evaluator(P).run(m) if e.kind == 'return']
+    # the label route may itself go through augment_slice (inlined here, so that both routes are compared as terms)
+    me = [e for e in Evaluator(P, inline=lambda q, d: q == CSUP + 'augment_slice').run(m) if e.kind == 'return']
     ctx.paths += len(ae) + len(me)
     inds = ('sub', ('call', 'numpy.where', (('cmp', '==', S('cycle_vect'), S('ii')),), ()), C(0))
     first = ('sub', inds, C(0))
